@@ -26,7 +26,10 @@ import time
 VERIF = os.path.dirname(os.path.dirname(os.path.abspath(__file__)))
 REPO = os.environ.get("VERIF_REPO", "/repo")
 COQ = os.path.join(VERIF, "coq")
-BUILD = os.path.join(VERIF, "build")
+SCRATCH = os.path.abspath(REPO) != "/repo"          # checking a scratch copy: keep evidence/replays out of /verif
+BUILD = os.environ.get("VERIF_BUILD") or (
+    os.path.join(VERIF, "build") if os.path.abspath(REPO) == "/repo"
+    else os.path.join("/tmp", "verif-build-" + hashlib.sha1(os.path.abspath(REPO).encode()).hexdigest()[:8]))
 GOENV = dict(os.environ, GOFLAGS="-mod=mod", GOPROXY="off", GOSUMDB="off", GOTOOLCHAIN="local",
              CGO_ENABLED=os.environ.get("CGO_ENABLED", "1"))
 
@@ -206,7 +209,17 @@ def harness_build(name, tags="verif", race=False, timeout=1200):
             shutil.copy(os.path.join(REPO, "go.sum"), os.path.join(hdir, "go.sum"))
         except OSError:
             pass
-        cmd = ["go", "build", "-tags", tags] + (["-race"] if race else []) + ["-o", out, "./cmd/" + name]
+        modargs = []
+        if os.path.abspath(REPO) != "/repo":
+            # scratch copy of the repository (VERIF_REPO): same module graph, different replace target
+            md = os.path.join(BUILD, "modfiles")
+            os.makedirs(md, exist_ok=True)
+            mf = os.path.join(md, name + ".mod")
+            txt = open(os.path.join(hdir, "go.mod")).read().replace("=> /repo", "=> " + os.path.abspath(REPO))
+            open(mf, "w").write(txt)
+            shutil.copy(os.path.join(REPO, "go.sum"), os.path.join(md, name + ".sum"))
+            modargs = ["-modfile=" + mf]
+        cmd = ["go", "build"] + modargs + ["-tags", tags] + (["-race"] if race else []) + ["-o", out, "./cmd/" + name]
         rc, log = sh(cmd, cwd=hdir, timeout=timeout)
     return rc == 0, out, log
 
@@ -233,7 +246,7 @@ def known_findings(prop):
 
 
 def write_replay(prop, payload):
-    d = os.path.join(VERIF, "replays", prop)
+    d = os.path.join(BUILD if SCRATCH else VERIF, "replays", prop)
     os.makedirs(d, exist_ok=True)
     raw = json.dumps(payload, sort_keys=True, indent=1)
     h = hashlib.sha1(raw.encode()).hexdigest()[:12]
@@ -285,8 +298,9 @@ class Report:
             ev["coverage"]["known_findings_reproduced"] = self.known
         if self.notes:
             ev["coverage"]["notes"] = self.notes
-        os.makedirs(os.path.join(VERIF, "evidence"), exist_ok=True)
-        with open(os.path.join(VERIF, "evidence", self.prop + ".json"), "w") as f:
+        evdir = os.path.join(BUILD if SCRATCH else VERIF, "evidence")
+        os.makedirs(evdir, exist_ok=True)
+        with open(os.path.join(evdir, self.prop + ".json"), "w") as f:
             json.dump(ev, f, indent=1, sort_keys=True)
         return 1 if self.violations else 0
 
